@@ -194,6 +194,8 @@ func (p *IdentityProvider) ssoHandleFunc(w http.ResponseWriter, r *http.Request)
 		"protocol binding",
 		func() string { return response.ProtocolBinding },
 		func() {
+			// without a binding the consumer endpoint can not be reached, so the response is returned directly
+			response.AcsUrl = ""
 			response.sendBackResponse(r, w, response.makeFailedResponse(StatusCodeUnsupportedBinding, fmt.Errorf("missing usable protocol binding").Error(), p.TimeFormat))
 		},
 	)
